@@ -350,7 +350,8 @@ func monitorOnly(prefix, prop string, in []*Scenario) []*Scenario {
 		c := *sc
 		c.Name = prefix + sc.Name
 		c.Prop = prop
-		c.Check = func(w *World, x *Exec) []Violation { return NoHang(x, prop) }
+		// hangs are judged by the check that owns the scenario; here only the monitors speak
+		c.Check = func(w *World, x *Exec) []Violation { return nil }
 		out = append(out, &c)
 	}
 	return out
